@@ -49,9 +49,11 @@ func (p *Processor) NotifyRecharge(ueId string, rg int32) {
 	// If it is previosly set to debit mode due to quota exhausted, need to reverse to the reserve mode
 	// (the rating type map and the notification URI are shared with the charging requests of the subscriber)
 	ue.CULock.Lock()
+	verifhook.At("recharge.locked", "ue", ue)
 	verifhook.At("recharge.write", "ue", ue)
 	ue.RatingType[rg] = charging_datatype.REQ_SUBTYPE_RESERVE
 	notifyUri := ue.NotifyUri
+	verifhook.At("recharge.unlocking", "ue", ue)
 	ue.CULock.Unlock()
 	reauthorizationDetails = append(reauthorizationDetails, models.ReauthorizationDetails{
 		RatingGroup: rg,
